@@ -210,3 +210,50 @@ theorem processWords_eq (st : State)
   rw [h]
 
 end Physis.Sha1
+
+namespace Physis.Sha1
+open Physis.Spec.Sha1 (Vars Window)
+
+theorem word_eq (b0 b1 b2 b3 : UInt8) :
+    (b3.toUInt32 ||| (b2.toUInt32 <<< 8) ||| (b1.toUInt32 <<< 16) ||| (b0.toUInt32 <<< 24)) =
+    ((b0.toUInt32 <<< 24) ||| (b1.toUInt32 <<< 16) ||| (b2.toUInt32 <<< 8) ||| b3.toUInt32) := by
+  bv_decide
+
+theorem words_eq (blk : Bytes) : words blk = Spec.Sha1.beWords blk := by
+  fun_induction words blk with
+  | case1 b0 b1 b2 b3 rest ih =>
+    rw [ih, Spec.Sha1.beWords]
+    exact congrArg (· :: Spec.Sha1.beWords rest) (word_eq b0 b1 b2 b3)
+  | case2 blk h =>
+    unfold Spec.Sha1.beWords
+    split
+    · exact absurd rfl (h _ _ _ _ _)
+    · rfl
+
+theorem beWords_length (blk : Bytes) : (Spec.Sha1.beWords blk).length = blk.length / 4 := by
+  fun_induction Spec.Sha1.beWords blk with
+  | case1 a b c d rest ih => simp only [List.length_cons, ih]; omega
+  | case2 blk h =>
+    match blk, h with
+    | [], _ => rfl
+    | [_], _ => simp
+    | [_, _], _ => simp
+    | [_, _, _], _ => simp
+    | a :: b :: c :: d :: r, h => exact absurd rfl (h a b c d r)
+
+theorem list16 {α} (l : List α) (h : l.length = 16) :
+    ∃ a0 a1 a2 a3 a4 a5 a6 a7 a8 a9 a10 a11 a12 a13 a14 a15,
+      l = [a0, a1, a2, a3, a4, a5, a6, a7, a8, a9, a10, a11, a12, a13, a14, a15] := by
+  match l, h with
+  | [a0, a1, a2, a3, a4, a5, a6, a7, a8, a9, a10, a11, a12, a13, a14, a15], _ =>
+    exact ⟨a0, a1, a2, a3, a4, a5, a6, a7, a8, a9, a10, a11, a12, a13, a14, a15, rfl⟩
+
+/-- `Sha1State::process` on a 64-byte block is the FIPS 180-4 compression function -/
+theorem process_eq (st : State) (blk : Bytes) (h : blk.length = 64) :
+    toVars (process st blk) = Spec.Sha1.compress (toVars st) blk := by
+  have hl : (Spec.Sha1.beWords blk).length = 16 := by rw [beWords_length, h]
+  obtain ⟨a0, a1, a2, a3, a4, a5, a6, a7, a8, a9, a10, a11, a12, a13, a14, a15, hw⟩ := list16 _ hl
+  simp only [process, Spec.Sha1.compress, Spec.Sha1.compress?, words_eq, hw, Window.ofWords,
+    Option.map_some, processWords_eq]
+
+end Physis.Sha1
